@@ -4,7 +4,8 @@ import json
 import sys
 
 pid = sys.argv[1]
-need = json.load(open('/verif/hunt/benign_needs.json')).get(pid, [])
+import os
+need = json.load(open(os.environ.get('NEEDS', '/verif/hunt/benign_needs.json'))).get(pid, [])
 for l in open('/verif/properties.jsonl'):
     p = json.loads(l)
     if p['id'] == pid:
